@@ -246,18 +246,45 @@ fn stmt_of_expr(e: &syn::Expr) -> Option<String> {
     }),
     syn::Expr::Assign(a) => match place(&a.left) {
       Some(p) => Some(format!("SAssign {} ({})", q(&p), expr(&a.right))),
-      None => Some(format!("SForeign {}", q(&short(e)))),
+      None => match field_place(&a.left) {
+        // `<expr>.field = rhs` through a reference obtained from a call: a world call on the object
+        Some((base, f)) => Some(format!("SExpr (ECall {} [{}; {}])", q(&format!("set_field:{}", f)), base, expr(&a.right))),
+        None => Some(format!("SForeign {}", q(&short(e)))),
+      },
     },
     syn::Expr::Binary(b) => match binop(&b.op) {
       Some((op, true)) => match place(&b.left) {
         Some(p) if !p.contains('.') => Some(format!("SOpAssign {} {} ({})", op, q(&p), expr(&b.right))),
-        _ => Some(format!("SForeign {}", q(&short(e)))),
+        _ => match field_place(&b.left) {
+          Some((base, f)) => Some(format!(
+            "SExpr (ECall {} [{}; {}])",
+            q(&format!("{}_field:{}", op.to_lowercase(), f)),
+            base,
+            expr(&b.right)
+          )),
+          None => Some(format!("SForeign {}", q(&short(e)))),
+        },
       },
       _ => None,
     },
     syn::Expr::Macro(m) => mac_stmt(&m.mac),
     _ => None,
   }
+}
+
+// `<base>.field` as an assignment target whose base is a local or a call result (not `self.x`)
+fn field_place(e: &syn::Expr) -> Option<(String, String)> {
+  if let syn::Expr::Field(f) = e {
+    if let syn::Member::Named(n) = &f.member {
+      if let syn::Expr::Path(p) = &*f.base {
+        if p.path.is_ident("self") {
+          return None;
+        }
+      }
+      return Some((expr(&f.base), n.to_string()));
+    }
+  }
+  None
 }
 
 fn local(l: &syn::Local) -> Vec<String> {
